@@ -1,13 +1,262 @@
-"""Sanitizer / build-sweep tools used by ./check (filled in per property)."""
+"""Sanitizer / build-sweep tools used by ./check.
+
+* run_miri     : the monitor binary's `--tool miri` workload under `cargo +nightly miri run`
+                 (undefined-behaviour interpreter), one process per sub-check / shard.
+* run_memcheck : the release binary's `--tool memcheck` workload under valgrind memcheck.
+* run_config_sweep : C20's observation of the build in every feature configuration.
+"""
+import concurrent.futures
+import json
+import os
+import re
+import shutil
+import subprocess
+import time
+
+# what each property runs under Miri: (sub-check name, number of shards)
+MIRI_PLAN = {
+    "C03": {
+        "quick": [("miri_tag_slices", 2), ("miri_own_slices", 2), ("miri_tag_arrays", 3), ("miri_own_arrays", 3), ("array_fns", 4)],
+        "thorough": [("miri_tag_slices", 2), ("miri_own_slices", 2), ("miri_tag_arrays", 2), ("miri_own_arrays", 2), ("array_fns", 8)],
+    },
+    "C18": {
+        "quick": [("iter_histories", 6), ("conversions", 5), ("slice_views", 3)],
+        "thorough": [("iter_histories", 16), ("conversions", 10), ("slice_views", 6)],
+    },
+}
+
+UB_KINDS = [
+    (r"uninitialized", "uninitialized_memory"),
+    (r"has been freed|dangling|use.after.free|dereferenc\w+ .* after", "use_after_free"),
+    (r"deallocat\w+ .* (twice|which is already|dangling)|double.free", "double_free"),
+    (r"out.of.bounds", "out_of_bounds"),
+    (r"constructing invalid value|invalid value", "invalid_value"),
+    (r"memory leaked|leaked", "memory_leak"),
+    (r"not granting access|borrow stack|tree borrows|protector|retag", "aliasing_violation"),
+    (r"unaligned|alignment", "misaligned"),
+    (r"data race", "data_race"),
+]
+
+
+def classify_ub(text):
+    low = text.lower()
+    for pat, kind in UB_KINDS:
+        if re.search(pat, low):
+            return kind
+    return "other_ub"
+
+
+def short_vek_fn(fn):
+    """vek::row_major::Mat4::<T>::into_row_array -> Rows4::into_row_array;
+    <vek::vec::repr_c::vec3::IntoIter<T> as Iterator>::next -> vec3::IntoIter::next"""
+    plain = fn
+    for _ in range(6):
+        plain = re.sub(r"<[^<>]*>", "", plain)
+    plain = plain.replace("::::", "::").strip(": ")
+    last = [s for s in plain.split("::") if s][-1] if plain else fn
+    m = re.search(r"(row_major|column_major)::(?:mat\d::)?Mat(\d)", fn)
+    if m:
+        return f"{'Rows' if m.group(1) == 'row_major' else 'Cols'}{m.group(2)}::{last}"
+    m = re.search(r"vek::(?:vec::)?(?:repr_c::)?(vec\d+|extent\d|rgba?|uvw?)::(\w+)", fn)
+    if m:
+        lastseg = re.search(r"::(\w+)$", fn.strip())
+        return f"{m.group(1)}::{m.group(2)}::{lastseg.group(1) if lastseg else last}"
+    segs = [s for s in plain.split("::") if s]
+    return "::".join(segs[-3:])
+
+
+def parse_miri_stderr(err):
+    """Return (message, first vek frame function, location) or None if no Miri diagnostic."""
+    m = re.search(r"error: (Undefined Behavior: [^\n]+|memory leaked[^\n]*|unsupported operation: [^\n]+|the evaluated program (?:leaked|aborted)[^\n]*|[^\n]*abnormal termination[^\n]*)", err)
+    if not m:
+        return None
+    msg = m.group(1).strip()
+    tail = err[m.start():]
+    frames = re.findall(r"\n\s*\d+: ([^\n]+)\n\s+at ([^\n]+)", tail)
+    frames += re.findall(r"inside `([^`]+)` at ([^\n]+)", tail)
+    vek_fn, vek_loc = None, None
+    for f, loc in frames:
+        if "/repo/src/" in loc:
+            vek_fn, vek_loc = f.strip(), loc.strip()
+            break
+    if vek_fn is None:
+        loc0 = re.search(r"--> (/repo/src/[^\n]+)", tail)
+        if loc0:
+            vek_loc = loc0.group(1).strip()
+            vek_fn = "vek (" + vek_loc.split("/repo/")[-1] + ")"
+    return msg, vek_fn, vek_loc
 
 
 def run_miri(prop, binname, tier, seed, rundir, env_for_build, harness, target, log):
-    return {"evaluations": 0, "distinct_nontrivial": 0, "rule": "not implemented yet", "samples": []}, [], []
+    plan = MIRI_PLAN.get(prop, {}).get(tier, [])
+    evidence = {"tool": "miri", "evaluations": 0, "distinct_nontrivial": 0, "processes": 0, "ub_reports": 0,
+                "rule": "the monitor binary's --tool miri workload (unsafe-backed operations only) interpreted by Miri with isolation disabled and leak checking on, one process per sub-check/shard; evaluations = cases completed under the interpreter",
+                "samples": [], "sub_checks": {}}
+    viols, probs = [], []
+    if not plan:
+        return evidence, viols, probs
+    env = env_for_build()
+    env["MIRIFLAGS"] = "-Zmiri-disable-isolation"
+    base = ["cargo", "+nightly", "miri", "run", "--offline", "-q", "-p", "props", "--bin", binname, "--"]
+    # build (and sysroot) once, serially
+    t0 = time.time()
+    warm = subprocess.run(base + ["--tool", "miri", "--tier", tier, "--threads", "1", "--sub", "__none__", "--out", os.path.join(rundir, "miri_warm.json")],
+                          cwd=harness, env=env, stdout=subprocess.PIPE, stderr=subprocess.PIPE, text=True)
+    log(f"[miri build {binname}] rc={warm.returncode} {time.time()-t0:.1f}s")
+    if warm.returncode != 0 and "error: Undefined Behavior" not in warm.stderr and not os.path.exists(os.path.join(rundir, "miri_warm.json")):
+        probs.append("miri: cannot build/run the monitor under Miri: " + warm.stderr[-1500:])
+        return evidence, viols, probs
+
+    jobs = []
+    for sub, shards in plan:
+        for sh in range(shards):
+            out = os.path.join(rundir, f"miri_{sub}_{sh}.json")
+            args = ["--tool", "miri", "--tier", tier, "--seed", str(seed), "--threads", "1", "--sub", sub, "--shard", f"{sh}/{shards}", "--out", out]
+            jobs.append((sub, sh, shards, args, out))
+
+    def one(job):
+        sub, sh, shards, args, out = job
+        t1 = time.time()
+        try:
+            r = subprocess.run(base + args, cwd=harness, env=env, stdout=subprocess.PIPE, stderr=subprocess.PIPE, text=True, timeout=5400)
+            return job, r.returncode, r.stderr, time.time() - t1
+        except subprocess.TimeoutExpired:
+            return job, None, "timeout", time.time() - t1
+
+    with concurrent.futures.ThreadPoolExecutor(max_workers=16) as ex:
+        results = list(ex.map(one, jobs))
+
+    for (sub, sh, shards, args, out), rc, err, dt in results:
+        evidence["processes"] += 1
+        se = evidence["sub_checks"].setdefault(sub, {"processes": 0, "cases_completed": 0, "distinct": 0, "ub": 0, "wall_s": 0.0})
+        se["processes"] += 1
+        se["wall_s"] = round(se["wall_s"] + dt, 1)
+        log(f"[miri {binname} {sub} {sh}/{shards}] rc={rc} {dt:.1f}s")
+        if rc is None:
+            probs.append(f"miri {sub} shard {sh}: watchdog")
+            continue
+        diag = parse_miri_stderr(err)
+        doc = None
+        if os.path.exists(out):
+            try:
+                with open(out) as f:
+                    doc = json.load(f)
+            except Exception:
+                doc = None
+        if doc:
+            for s in doc["subs"]:
+                evidence["evaluations"] += s["evaluations"]
+                evidence["distinct_nontrivial"] += s["distinct_nontrivial"]
+                se["cases_completed"] += s["evaluations"]
+                se["distinct"] += s["distinct_nontrivial"]
+                for smp in s.get("samples", [])[:1]:
+                    if len(evidence["samples"]) < 4:
+                        evidence["samples"].append(f"[miri {sub}] {smp}")
+                # ledger / oracle violations found while interpreted
+                for v in s.get("violations", []):
+                    w = dict(v)
+                    w["profile"] = "miri"
+                    w["replay_cmd"] = "cd /verif/harness && MIRIFLAGS=-Zmiri-disable-isolation RUSTFLAGS='--cfg vek_verif' CARGO_TARGET_DIR=/verif/target cargo +nightly miri run --offline -q -p props --bin %s -- %s" % (binname, " ".join(args[:-2]))
+                    viols.append(w)
+        if diag:
+            msg, fn, loc = diag
+            kind = classify_ub(msg)
+            evidence["ub_reports"] += 1
+            se["ub"] += 1
+            ty = "Own" if "own" in sub or "Own" in err[:4000] else ("Tag" if "tag" in sub else "harness element types")
+            api = short_vek_fn(fn) if fn else "unknown (no vek frame in the backtrace)"
+            viols.append({
+                "sub": f"miri:{sub}", "api": api, "ty": ty, "class": "ub",
+                "sig": f"{prop}|{api}|miri|ub|{kind}",
+                "detail": f"Miri: {msg} | first vek frame: {fn} at {loc} | shard {sh}/{shards} of {sub}",
+                "profile": "miri", "case_seed": seed, "case_index": None,
+                "replay_cmd": "cd /verif/harness && MIRIFLAGS=-Zmiri-disable-isolation RUSTFLAGS='--cfg vek_verif' CARGO_TARGET_DIR=/verif/target cargo +nightly miri run --offline -q -p props --bin %s -- %s" % (binname, " ".join(args[:-2])),
+            })
+        elif rc not in (0, 1) or doc is None:
+            probs.append(f"miri {sub} shard {sh}: ended rc={rc} without a diagnostic or result file; stderr tail: {err[-600:]}")
+    return evidence, viols, probs
 
 
 def run_memcheck(prop, path, tier, seed, rundir, log):
-    return {"evaluations": 0, "distinct_nontrivial": 0, "rule": "not implemented yet", "samples": []}, [], []
+    evidence = {"tool": "valgrind-memcheck", "evaluations": 0, "distinct_nontrivial": 0, "errors": 0,
+                "rule": "the release monitor binary's --tool memcheck workload (raw memory operations enabled) under valgrind memcheck with full leak check; evaluations = cases completed; every memcheck error context whose stack reaches vek is a violation",
+                "samples": []}
+    viols, probs = [], []
+    if path is None or shutil.which("valgrind") is None:
+        probs.append("memcheck: binary or valgrind missing")
+        return evidence, viols, probs
+    shards = 8
+    jobs = []
+    for sh in range(shards):
+        out = os.path.join(rundir, f"memcheck_{sh}.json")
+        logf = os.path.join(rundir, f"memcheck_{sh}.log")
+        cmd = ["valgrind", "--tool=memcheck", "--error-exitcode=0", "--leak-check=full", "--show-leak-kinds=definite,indirect", "--errors-for-leak-kinds=definite,indirect",
+               "--num-callers=30", f"--log-file={logf}", path, "--tool", "memcheck", "--tier", "quick", "--seed", str(seed), "--threads", "1", "--shard", f"{sh}/{shards}", "--out", out]
+        jobs.append((sh, cmd, out, logf))
+
+    def one(job):
+        sh, cmd, out, logf = job
+        t1 = time.time()
+        try:
+            r = subprocess.run(cmd, stdout=subprocess.PIPE, stderr=subprocess.PIPE, text=True, timeout=5400)
+            return job, r.returncode, time.time() - t1
+        except subprocess.TimeoutExpired:
+            return job, None, time.time() - t1
+
+    with concurrent.futures.ThreadPoolExecutor(max_workers=8) as ex:
+        results = list(ex.map(one, jobs))
+    seen = set()
+    for (sh, cmd, out, logf), rc, dt in results:
+        log(f"[memcheck shard {sh}] rc={rc} {dt:.1f}s")
+        if rc is None:
+            probs.append(f"memcheck shard {sh}: watchdog")
+            continue
+        if os.path.exists(out):
+            with open(out) as f:
+                doc = json.load(f)
+            for s in doc["subs"]:
+                evidence["evaluations"] += s["evaluations"]
+                evidence["distinct_nontrivial"] += s["distinct_nontrivial"]
+                for smp in s.get("samples", [])[:1]:
+                    if len(evidence["samples"]) < 3:
+                        evidence["samples"].append(f"[memcheck] {smp}")
+                for v in s.get("violations", []):
+                    w = dict(v)
+                    w["profile"] = "memcheck"
+                    viols.append(w)
+        else:
+            probs.append(f"memcheck shard {sh}: no result file (rc={rc})")
+        if os.path.exists(logf):
+            text = open(logf, errors="replace").read()
+            # error contexts: blocks starting with "==pid== <Kind>" followed by "at 0x...: fn (file:line)"
+            blocks = re.split(r"\n==\d+== \n", text)
+            for b in blocks:
+                head = re.search(r"==\d+== (Invalid read|Invalid write|Invalid free|Mismatched free|Conditional jump or move depends on uninitialised|Use of uninitialised|Source and destination overlap|[\d,]+ bytes in [\d,]+ blocks are (?:definitely|indirectly) lost)[^\n]*", b)
+                if not head:
+                    continue
+                fns = re.findall(r"(?:at|by) 0x[0-9A-F]+: ([^\n]+)", b)
+                vek_frames = [f for f in fns if "vek::" in f]
+                if not vek_frames:
+                    continue
+                kind = head.group(1)
+                kind = re.sub(r"[\d,]+ bytes in [\d,]+ blocks are (\w+) lost", r"\1_leak", kind).lower().replace(" ", "_")
+                fn = re.sub(r" \([^()]*\)$", "", vek_frames[0])
+                api = short_vek_fn(fn)
+                key = (kind, api)
+                evidence["errors"] += 1
+                if key in seen:
+                    continue
+                seen.add(key)
+                viols.append({
+                    "sub": "memcheck", "api": api, "ty": "Own", "class": "ub",
+                    "sig": f"{prop}|{api}|memcheck|ub|{kind}",
+                    "detail": f"valgrind memcheck: {head.group(0)[:200]} | first vek frame: {fn} | stack: {' <- '.join(fns[:6])}",
+                    "profile": "memcheck", "case_seed": seed, "case_index": None,
+                    "replay_cmd": " ".join(cmd[:-2]).replace(f"--log-file={logf}", "--log-file=/dev/stderr"),
+                })
+    return evidence, viols, probs
 
 
 def run_config_sweep(prop, tier, seed, rundir, verif, log):
-    return {"evaluations": 0, "distinct_nontrivial": 0, "rule": "not implemented yet", "samples": []}, [], []
+    import sweep
+    return sweep.run(prop, tier, seed, rundir, verif, log)
